@@ -21,7 +21,7 @@ from ..refmodel.declarations import V2_NAMES, table as decl_table
 ENGINE = "modelsim"
 BUDGET = {
     "C02": {"quick": 8000, "thorough": 80000},
-    "C12": {"quick": 13020, "thorough": 300000},
+    "C12": {"quick": 14875, "thorough": 340000},
     "C13": {"quick": 20000, "thorough": 300000},
 }
 DECL = decl_table("csv")
@@ -180,7 +180,8 @@ def _gen_schedule(rng, model, env, kind, allow_v2=True):
     if kind != "plain":
         for c in allc:
             if rng.random() < 0.15:
-                meta[c["name"]] = {"DisplayName": "the " + c["name"], "Color": "Blue"}
+                # the grammar lets a metadata value be a number as well as a string (seeded change C13-i1)
+                meta[c["name"]] = {"DisplayName": "the " + c["name"], "Color": "Blue", "Year": 2020, "Weight": 0.25}
     v2 = []
     if allow_v2 and kind != "plain" and rng.random() < 0.15:
         # OutFileName arguments are dropped by the 2.0 translation, so only use it without file-writing extras
